@@ -2,6 +2,7 @@ import Model
 import Proofs.Walk
 import Proofs.DepGlobal
 import Proofs.DepAll
+import Proofs.DepMile
 import Proofs.Deadline
 import Proofs.BackGlobal
 import Proofs.WFCheck
@@ -116,6 +117,24 @@ theorem forward_deps_respected_all_elab (p : RawProj) (h : wfCheck (elaborate p)
     ∀ dt v, dateOf (runScenario (elaborate p).env) dp = some dt →
       ((runScenario (elaborate p).env).tst t).start = some v → dt + dp.gap ≤ v :=
   forward_deps_respected_all _ (wfCheck_sound _ h) (treeCheck_sound _ htr) t hel hs hf dp hd
+
+/-- **C04 for whole projects (forward mode), milestones as dependents** (`Proofs/DepMile`): a forward milestone — or a leaf
+    without effort — without a start of its own that the scheduling loop placed (`done`; a milestone the pre-pass dated from a
+    user-given end is pinned, outside the property) lies at or after `(start | end) + gap` of every predecessor, leaf or
+    container, in the final schedule; effort tasks as in `forward_deps_respected_all`. -/
+theorem forward_deps_respected_milestones (e : Env) (wf : WF e) (tr : Tree e) (t : Nat) (hel : FwdMile e t)
+    (hd : ((runScenario e).tst t).done = true) (hf : ((runScenario e).tst t).forward = true)
+    (dp : Dep) (hdp : dp ∈ (e.taskD t).allDeps) :
+    ((runScenario e).tst dp.target).scheduled = true ∧
+    ∀ dt v, dateOf (runScenario e) dp = some dt → ((runScenario e).tst t).start = some v → dt + dp.gap ≤ v :=
+  runScenario_depsOKAny e wf tr t (Or.inr hel) hd hf dp hdp
+
+/-- a milestone the loop placed is dated exactly at its dependency bound (start = end) -/
+theorem milestone_placed_at_bound (e : Env) (wf : WF e) (σ : St) (t : Nat) (hb : t < σ.ts.size)
+    (hf : (σ.tst t).forward = true) (hel : FwdMile e t) (hnd : (σ.tst t).done = false)
+    (hok : (scheduleTask e σ t).2 = true) :
+    ∃ v, ((scheduleTask e σ t).1.tst t).start = some v ∧ boundOf e σ t ≤ v :=
+  scheduleTask_start_ge_mile e wf σ t hb hf hel hnd hok
 
 /-- non-vacuity: b (1 h) depends on a (20 min) with a gap of 90 min, one resource: a well-formed project in which
     b is a forward effort task with one edge to a leaf -/
